@@ -488,7 +488,7 @@ def ob_v3_request(cx, what):
     P = cx.mod(PROTO)
     install(cx)
     args = _v3_args(cx)
-    kind = cx.pick("kind", ["none", "body", "stream"] + (["readv"] if cx.p("readv") else []))
+    kind = cx.pick("kind", ["none", "body", "stream", "unexpected_body"] + (["readv"] if cx.p("readv") else []))
     col = _Collect()
     rq = P.ProtocolThreeRequester(col)
     rq.set_headers({b"Software version": b"x"})
@@ -499,6 +499,11 @@ def ob_v3_request(cx, what):
     elif kind == "body":
         body = cx.bytes("body", cx.choose("nb", 0, cx.p("nbody")))
         rq.call_with_body_bytes((b"rec",) + args, body)
+    elif kind == "unexpected_body":
+        # a well-framed request carrying a body for a verb that has already answered: the message handler
+        # rejects the bytes part, the decoder must still follow the framing to the end of the message
+        body = cx.bytes("body", cx.choose("nb", 0, cx.p("nbody")))
+        rq.call_with_body_bytes((b"nob",) + args, body)
     elif kind == "readv":
         offs = [(cx.int("s", 0, cx.p("maxoff")), cx.int("l", 0, cx.p("maxoff")))]
         body = P.SmartProtocolBase()._serialise_offsets(offs)
